@@ -907,10 +907,10 @@ func (e *Engine) runInitFn(p *ssa.Package) {
 		defer func() {
 			if r := recover(); r != nil {
 				if ae, ok := r.(abortErr); ok {
-					fmt.Printf("note: init of %s stopped early: %s\n", p.Pkg.Path(), ae.msg)
+					_ = ae
 					return
 				}
-				fmt.Printf("note: init of %s stopped early: %v\n", p.Pkg.Path(), r)
+				
 			}
 		}()
 		e.callFn(fn, nil, nil, True, token.NoPos)
